@@ -193,22 +193,23 @@ def make_module_api(kind):
     """Build the function table of one exafmm submodule."""
     charge_dtype = _np.complex128 if kind == "helmholtz" else _np.float64
 
-    def init_sources(points, charges):
+    # extra positional / keyword arguments of the real extension (e.g. a verbosity flag) are accepted and ignored
+    def init_sources(points, charges, *args, **kwargs):
         return _init_sources(points, charges)
 
-    def init_targets(points):
+    def init_targets(points, *args, **kwargs):
         return _init_targets(points)
 
-    def setup(sources, targets, fmm):
+    def setup(sources, targets, fmm, *args, **kwargs):
         return _setup(sources, targets, fmm, charge_dtype)
 
-    def update_charges(tree, charges):
+    def update_charges(tree, charges, *args, **kwargs):
         return _update_charges(tree, charges)
 
-    def clear_values(tree):
+    def clear_values(tree, *args, **kwargs):
         return _clear_values(tree)
 
-    def evaluate(tree, fmm):
+    def evaluate(tree, fmm, *args, **kwargs):
         return _evaluate(tree, fmm)
 
     return dict(
@@ -221,15 +222,15 @@ def make_module_api(kind):
     )
 
 
-def LaplaceFmm(expansion_order, ncrit, filename=None):
+def LaplaceFmm(expansion_order, ncrit, filename=None, **kwargs):
     return _Fmm("laplace", expansion_order, ncrit, None, filename)
 
 
-def HelmholtzFmm(expansion_order, ncrit, wavenumber, filename=None):
+def HelmholtzFmm(expansion_order, ncrit, wavenumber, filename=None, **kwargs):
     return _Fmm("helmholtz", expansion_order, ncrit, wavenumber, filename)
 
 
-def ModifiedHelmholtzFmm(expansion_order, ncrit, wavenumber, filename=None):
+def ModifiedHelmholtzFmm(expansion_order, ncrit, wavenumber, filename=None, **kwargs):
     if _np.iscomplexobj(wavenumber) and _np.imag(wavenumber) != 0:
         raise TypeError("ModifiedHelmholtzFmm: wavenumber must be real")
     return _Fmm("modified_helmholtz", expansion_order, ncrit, wavenumber, filename)
